@@ -20,13 +20,14 @@ PROP = "C14"
 LEVEL = "exploration"
 RULE = (
     "E1 programs in the 'roots' flavour: templates with 0..n root elements, text-only roots, nested elements, components as roots "
-    "(chains), components in loops / slots / fills, each class echoing Component.id; both context behaviours; plus root chains of "
+    "(chains), components in loops / slots / fills, each class echoing Component.id; both context behaviours; the same page again with "
+    "every page-level tag written through the dynamic component (un-echoed wrapper ids solved for); plus root chains of "
     "depth 50-300 (quick) / 500-2000 (thorough); distinct by program AST; non-trivial = some element is a root of >=2 instances or "
     "a non-root element exists next to root elements"
 )
 ASSUMPTIONS = [
     "render ids come from the library's own generator; a duplicate id produced by the RNG itself makes the case inconclusive, not a violation",
-    "the dynamic-component wrapper is not exercised here (its id is not echoed)",
+    "dynamic-component wrappers (page-level tags written as {% component \"dynamic\" is=... %}) do not echo their id: the check requires one consistent, distinct, otherwise unused id per wrapper on exactly the roots of its target",
 ]
 
 IDTOK = re.compile(r"\[I(\w+)\]")
@@ -103,7 +104,76 @@ def check_program(env, rec, prog, seedinfo):
                 rec.count("root_elements")
         if any(not nos for _, nos in exp) and any(nos for _, nos in exp):
             nontrivial = True
+        if not check_dynamic(env, rec, prog, mode, ref, seedinfo):
+            return nontrivial
     return nontrivial
+
+
+def check_dynamic(env, rec, prog, mode, ref, seedinfo):
+    """Same page with every page-level tag written as {% component "dynamic" is=... %}: each such instance gets a
+    wrapper instance whose id is not echoed.  The wrapper's root elements are its target's root elements, so every
+    element must carry, besides the echoed ids the model expects, exactly one further id per wrapped instance it is
+    a root of - the same id on all roots of that instance, on no other element, distinct from every other id."""
+    it = ref[2]
+    wrapped = {i.no for i in it.instances if i.parent is None}
+    if not wrapped:
+        return True
+    built = env.build(prog)
+    try:
+        got = env.render(built, mode, "dynamic", limit=40 * len(it.instances) + 50, keep_ids=True)
+    finally:
+        built.dispose()
+    case = {"program": prog, "mode": mode, "variant": "dynamic", "seed": seedinfo}
+    if got[0] != "ok":
+        rec.violation("render-failed", case, {"what": repr(got[:3])[:400]})
+        return False
+    raw = e1run.RENDERED.sub("", got[2])
+    rec.observe("dynamic-pages-parsed")
+    real_ids = IDTOK.findall(raw)
+    model_nos = [int(x) for x in IDTOK.findall(ref[1])]
+    if len(real_ids) != len(model_nos):
+        rec.violation("id-echo-count", case, {"what": f"{len(real_ids)} echoes, model {len(model_nos)}", "html": raw[:600]})
+        return False
+    if len(set(real_ids)) != len(real_ids):
+        rec.inconc("duplicate-render-id-from-rng")
+        return False
+    id2no = dict(zip(real_ids, model_nos))
+    p = P()
+    p.feed(raw)
+    p.close()
+    exp = it.elem_occ
+    if [u for u, _, _ in p.elems] != [u for u, _ in exp]:
+        rec.violation("element-sequence-differs", case, {"what": f"parsed {[u for u, _, _ in p.elems][:30]} model {[u for u, _ in exp][:30]}", "html": raw[:600]})
+        return False
+    cand = {}  # wrapped instance -> candidate wrapper ids
+    per_elem = []
+    for (uid, ids, other), (_, nos) in zip(p.elems, exp):
+        unknown = sorted(i for i in ids if i not in id2no)
+        got_nos = sorted(id2no[i] for i in ids if i in id2no)
+        w = [n for n in nos if n in wrapped]
+        if got_nos != nos or len(unknown) != len(w) or len(set(unknown)) != len(unknown):
+            rec.violation("wrong-root-markers", case, {"what": f"dynamic: element e{uid}: markers of instances {got_nos} + {len(unknown)} un-echoed ids, expected instances {nos} + {len(w)} wrapper ids", "html": raw[:800]})
+            return False
+        per_elem.append((uid, set(unknown), w))
+        for n in w:
+            cand[n] = cand[n] & set(unknown) if n in cand else set(unknown)
+    assign = {}
+    while cand:
+        n = min(cand, key=lambda k: (len(cand[k]), k))
+        if not cand[n]:
+            rec.violation("wrong-root-markers", case, {"what": f"dynamic: no single wrapper id is shared by all root elements of instance {n}", "html": raw[:800]})
+            return False
+        u = sorted(cand.pop(n))[0]
+        assign[n] = u
+        for k in cand:
+            cand[k].discard(u)
+    for uid, unknown, w in per_elem:
+        rec.observe("dynamic-elements-compared")
+        if unknown != {assign[n] for n in w}:
+            rec.violation("wrong-root-markers", case, {"what": f"dynamic: element e{uid} carries un-echoed ids {sorted(unknown)}; the wrappers of its instances {w} are {sorted(assign[n] for n in w)}", "html": raw[:800]})
+            return False
+    rec.count("dynamic_wrappers_identified", len(assign))
+    return True
 
 
 def deep_chain(env, rec, depth, mode, width):
@@ -165,7 +235,7 @@ def plan(tier, seed):
 
 def run_shard(spec, rec):
     env = e1run.E1Env()
-    rec.require("pages-parsed", "elements-compared")
+    rec.require("pages-parsed", "elements-compared", "dynamic-pages-parsed")
     if spec["kind"] == "chain":
         for mode in ("django", "isolated"):
             for width in (1, 3):
